@@ -67,6 +67,14 @@ CLAIMED = {
         "design_ref": "DESIGN.md §8 C09",
         "technique": "Lean 4 theorems (denotation spec vs normalisation, lexical resolution lemmas, ** regex model) + T1 correspondence with recorded pathlib answers + realpath-based failing-input search",
     },
+    "C05": {
+        "text": "Proof (Lean 4): for every World, a simple command whose program is on no table, matches no rule and is not a wrapper is answered ask with its description unless the help/version predicate holds "
+        "(unknown_asks, unknown_never_allowed), that predicate is exactly the documented shape (help_shape), parse errors / empty text / no nodes / unknown node kinds yield ask, _strip_quotes can only turn n, \"n\" or 'n' into n "
+        "(name_spelling) and - as obligations on the tables regenerated from the source on every run - every table name is plain, no launcher is on the always-safe list, the help tuples are the documented ones. "
+        "Tied to analyzer.py by differential runs on unknown names and malformed text; failing-input search with the program name computed by real bash.",
+        "design_ref": "DESIGN.md §8 C05",
+        "technique": "Lean 4 theorems + decide-checked obligations on T0-generated tables + T1 correspondence + bash-grounded failing-input search",
+    },
 }
 
 PENDING_REASON = "check not built yet in this round (DESIGN.md §10 build order); no technique other than Lean proof + correspondence is substituted"
